@@ -321,7 +321,13 @@ func (h *Hist) OpAuthorize() AuthResult {
 			// A copy of a genuine authorization (they are public) with one
 			// field altered and the original signature kept.
 			a := d.Auth
-			switch c.Int("tamper-field", 6) {
+			switch c.Int("tamper-field", 7) {
+			case 6:
+				// Nothing altered but the signature itself: its other root
+				// (s -> N-s), which anybody can compute. Bytewise a second,
+				// different authorization for the id if it were accepted.
+				a.Signature = MalleateSig(a.Signature)
+				h.W.Probe("hist.malleated-authorization")
 			case 0:
 				a.Capacity += 1000
 			case 1:
